@@ -55,7 +55,7 @@ def natural_tlv(rng):
     if c == 0:
         return 0x01, rng.choice([b"h2", b"http/1.1", b"", b"\x02h2\x08http/1.1"])
     if c == 1:
-        return 0x02, rng.choice([b"example.org", b"a", b"xn--e1afmkfd.xn--p1ai", b"\xc3\xa9.example", b""])
+        return 0x02, rng.choice([b"example.org", b"a", b"xn--e1afmkfd.xn--p1ai", b"\xc3\xa9.example", b"", b"\xff\xfe.example", b"ex\x00ample", b"A" * 255, b"a." * 130])
     if c == 2:
         return 0x03, rng.choice([bytes(4), b"\xff" * 4, rand_bytes(rng, 4), rand_bytes(rng, 3), rand_bytes(rng, 5)])
     if c == 3:
@@ -66,11 +66,14 @@ def natural_tlv(rng):
         sub = b"".join(tlv_enc(k, v) for k, v in rng.sample(
             [(0x21, b"TLSv1.3"), (0x22, b"client.example"), (0x23, b"ECDHE-RSA-AES128-GCM-SHA256"),
              (0x24, b"SHA256"), (0x25, b"RSA2048")], rng.randint(0, 3)))
+        if rng.random() < 0.25:
+            # SSL TLVs shorter than their fixed part, or with a truncated / oversized sub-TLV
+            return 0x20, rng.choice([b"", b"\x01", b"\x01\x00\x00\x00", b"\x01\x00\x00\x00\x00\x21", b"\x01\x00\x00\x00\x00\x21\x00\x09TLS", b"\x07\x00\x00\x00\x00\x21\x00\x00\x22\x00\x00"])
         return 0x20, bytes([rng.choice([0, 1, 3, 5, 7, 255])]) + rng.choice([bytes(4), b"\x00\x00\x00\x01", rand_bytes(rng, 4)]) + sub
     if c == 6:
         return rng.choice([0x21, 0x22, 0x23, 0x24, 0x25]), rng.choice([b"TLSv1.2", b"", b"x" * 40])
     if c == 7:
-        return 0x30, rng.choice([b"ns1", b"/var/run/netns/blue", b""])
+        return 0x30, rng.choice([b"ns1", b"/var/run/netns/blue", b"", b"bl\xc3\xbce", b"\x00", b"n" * 300])
     if c == 8:
         if rng.random() < 0.5:
             # long text values with multi-byte characters at every alignment around the offsets a
